@@ -126,9 +126,14 @@ Fixpoint dlog (a : sann) (v : pyval) : option (list (string * pyval)) :=
   | SPlain _ f => Some [(f, v)]
   end.
 
-(* arguments.py _get_dict_value: the WHOLE argument goes through serialize *)
-Definition arg_log (S : schema) (t : gtype) (v : pyval) : list (string * pyval) :=
-  match var_ser S t with Some f => [(f, v)] | None => [] end.
+(* arguments.py _get_dict_value / _generate_serialize_expr (since /repo d163d56): the log of serialize calls
+   made when the generated expression is evaluated with the argument bound to its parameter *)
+Definition arg_log (ser : string -> pyval -> pyval) (S : schema) (t : gtype) (v : pyval)
+  : option (list (string * pyval)) :=
+  match var_ser S t with
+  | Some f => option_map snd (eval_se ser [("x", v)] (gen_se t "x" f true 0))
+  | None => Some []
+  end.
 
 (* ---- specification: the occurrences the property speaks about ---- *)
 (* non-null occurrences of a scalar with parse configured inside a value conformant to type t *)
@@ -199,7 +204,7 @@ Definition run_scalars (e : sexp) : sexp :=
       | Some Sc, Some ty =>
           L [A (sann_str (result_sann Sc ty true)); A (sann_str (input_sann Sc ty true));
              match parse_type_node Sc ty true with
-             | Some (a, u) => L [A (ann_str a); A (dictval_str (dict_value Sc "x" u))]
+             | Some (a, u) => L [A (ann_str a); A (dictval_str (dict_value Sc "x" u ty))]
              | None => A "gen-error" end]
       | _, _ => sErr "ann: decode" end
   | L [A "vlog"; sch; t; j] =>
@@ -210,7 +215,7 @@ Definition run_scalars (e : sexp) : sexp :=
       match schema_of_sexp sch, gtype_of_sexp t, pyval_of_sexp v with
       | Some Sc, Some ty, Some pv =>
           L [sPLog (dlog (input_sann Sc ty true) pv); sPLog (occ_ser Sc ty false pv);
-             sPLog (Some (arg_log Sc ty pv)); sB (ok_ty true ty); sB (g_f10 Sc ty)]
+             sPLog (arg_log ser_inst Sc ty pv)]
       | _, _, _ => sErr "dlog: decode" end
   | L [A "imports"; c] =>
       match cfg_of_sexp c with
